@@ -197,6 +197,9 @@ def enum_contents(seed):
                     fs.fsDev(nm + ".dev", major=1, minor=3, mode=0o20666, uid=0, gid=0, mtime=1)]
             p = os.path.join(d, f"CONTENTS{i}")
             open(p, "w").close()
+            if i % 5 == 0:
+                # device records whose path cannot even be looked up on the file system the check runs on: below a regular file, a name longer than any file system takes
+                ents += [fs.fsDev(p + "/below-a-file.dev", major=4, minor=1, mode=0o20600, uid=0, gid=0, mtime=1), fs.fsDev("/" + "n" * 300, major=4, minor=2, mode=0o20600, uid=0, gid=0, mtime=1)]
             src = p if via == "path" else _ds.data_source("", mutable=True)
             cases += 1
             try:
